@@ -552,7 +552,22 @@ func (g *gen) opUpdateAllowed(a *MAuction) Op {
 			who = i
 		}
 	}
-	return Op{Kind: OUpdateAllowed, AuctionID: a.ID, Who: who, Max: g.capFor(a).String()}
+	c := g.capFor(a)
+	if g.chance(0.2) {
+		// UpdateAllowedBidder (unlike AddAllowedBidders) accepts a cap above the offered amount: a bidder
+		// may then ask for more than the whole supply, and a price at which that capped demand does not
+		// fit sells nothing to anybody
+		switch g.r.Intn(3) {
+		case 0:
+			c = new(big.Int).Add(a.SellAmt, bigOne)
+		case 1:
+			c = new(big.Int).Mul(a.SellAmt, big.NewInt(2))
+		default:
+			c = new(big.Int).Add(a.SellAmt, bigMax1(new(big.Int).Quo(a.SellAmt, big.NewInt(2))))
+		}
+		g.intents["cap_above_supply"]++
+	}
+	return Op{Kind: OUpdateAllowed, AuctionID: a.ID, Who: who, Max: c.String()}
 }
 
 func (g *gen) genTx(pm *Model) *Tx {
